@@ -243,6 +243,8 @@ def finish(prop, tier, seed, R, outs, t0, update_baseline=False, extra_items=Non
             trusted.append("assumed library contract %s" % t[4:])
         elif t.startswith("shape:"):
             trusted.append("assumed shape contract %s (abstract user/peer object)" % t[6:])
+        elif c is not None and c.assumed:
+            trusted.append("assumed contract of repo function %s (used at call sites, body not verified)" % t)
     for t in sorted(inlined):
         trusted.append("inlined (no separate contract) %s" % t)
     for name, vars_, expr in R.axioms:
